@@ -56,6 +56,9 @@ def frame_requires(m):
         t != S("connection_init"), t != S("subscribe")))
 
 
+LONG_SUBSCRIPTION = "subscription Op { " + " ".join(f"f{i}: x(s: \"value {i}\")" for i in range(400)) + " }"      # about 9 kB
+
+
 class HandleWsMessage(Contract):
     props = ("C13",)
     trusted = TRUSTED
@@ -305,6 +308,8 @@ class SendSubscribe(_Sender):
         text = 'subscription Op($n: String = "two  blanks") {\n  x(s: "a   b", b: """\n    block   text\n  """)  # comment\n  y\n}\n'
         out.append(dict(operation_id="id-2", query=text, operation_name="Op", variables={"a": 1}))
         out.append(dict(operation_id="id-3", query=text, operation_name=None, variables=None))
+        # operation documents are long (every used fragment is part of them): nothing of the text may be cut or abbreviated
+        out.append(dict(operation_id="id-4", query=LONG_SUBSCRIPTION, operation_name="Op", variables={"a": 1}))
         return out
 
 
@@ -584,6 +589,7 @@ class ExecuteWs(Contract):
                                 ws_headers={"A": "1"}, ws_origin=None if ip is None else "http://o", init_payload=ip,
                                 kwargs={} if ip is None else {"extra_headers": {"B": "2"}, "open_timeout": 3},
                                 query="subscription S { x }", operation_name="S", variables=variables))
+        out.append(dict(out[5], query=LONG_SUBSCRIPTION, operation_name="Op"))      # a long operation document (ack, next, next, complete)
         return out
 
 
